@@ -270,7 +270,20 @@ async fn read_state_plain(st: &mut InMemoryStorage) -> Result<StoreState> {
 
 /// Committed state of a harness-owned in-memory store (as of its last successful commit).
 pub fn read_mem(store: &MemStore) -> Arc<StoreState> {
-    store.cache.lock().unwrap().clone()
+    if store.busy.load(std::sync::atomic::Ordering::SeqCst) {
+        // a transaction of a parked node borrows the store: what it has not committed is not
+        // durable, the last committed state is
+        return store.cache.lock().unwrap().clone();
+    }
+    // read the real store (not the cache): anything that reached it outside a commit must be seen
+    // SAFETY: not busy, so no transaction borrows the store.
+    let st: &mut InMemoryStorage = unsafe { &mut *store.data.get() };
+    let state = crate::exec::block_on(async { read_state(st).await }).expect("in-memory read");
+    let mut c = store.cache.lock().unwrap();
+    if **c != state {
+        *c = Arc::new(state);
+    }
+    c.clone()
 }
 
 // ---- a store that is either harness-owned memory or a SQLite directory -------------------------
